@@ -660,12 +660,12 @@ def _fit_contract(tag, nseg, inplace):
                 S.and_(S.eq(A_.shape[1], 3), S.eq(A_.at((flat, 0)), mk),
                        S.eq(A_.at((flat, 1)), S.mul(S.mul(r, ps[0]), mk)),
                        S.eq(A_.at((flat, 2)), S.mul(S.mul(S.neg(cc), ps[1]), mk)),
-                       S.eq(b_.at((flat,)), opd0.at((i, j))))))
+                       S.eq(b_.at((flat,)), opd0.at((i, j)))), 'structure'))
             t = new[k]
             # Tilt(x=a, y=b) keeps its x angle in .y and its y angle in .x (see C04::Wavefront.tilt.angles)
             xa, ya = t.attrs['y'], t.attrs['x']
             ctx.oblige(name % ('recorded_tilt_is_the_fitted_x_y[seg %d]' % k),
-                       S.and_(S.eq(xa, x_.at((1,))), S.eq(ya, x_.at((2,)))))
+                       S.and_(S.eq(xa, x_.at((1,))), S.eq(ya, x_.at((2,)))), 'structure')
             ramp = S.mul(S.add(S.mul(S.mul(xa, r), ps[0]), S.mul(S.mul(ya, S.neg(cc)), ps[1])), mk)
             total_ramp = S.add(total_ramp, ramp)
         if nseg == 1:
